@@ -260,6 +260,19 @@ def thr_cases(ctx):
     for n in (4, 16):
         out.append(" || ".join(_close(["bi 0 8 %d" % (j + 1), "nia", "push 1 0", "bs 1 %s" % ("61" * (j + 1)), "push 1 2", "sallocn 1", "salloc 1", "sallocn 0", "bt %d 1" % j, "sallocn 3", "copy 3", "sallocn 4"])
                               for j in range(n)))
+    # every thread describes items of every kind again and again - among them the tags with a registered meaning (0 / 1 date-time,
+    # 2 / 3 bignum, 4 / 5 fraction, 24 embedded CBOR, 32 URI, 55799 self-described) whose pretty-printing might reach for libc
+    # helpers with static state (gmtime, localtime, strtok, setlocale) -, under ThreadSanitizer
+    for n in (4, 16):
+        hs = []
+        for j in range(n):
+            ops = ["bi 0 32 %d" % (1700000000 + j), "bs 1 %s" % ("323032332d" + "3%d" % (j % 10)), "bs 0 0102", "bf 64 %x" % (0x41D954FC40000000 + j)]
+            base = 4
+            for k, (tv, x) in enumerate(((1, 0), (0, 1), (2, 2), (24, 2), (1, 3), (32, 1), (55799, 0))):
+                ops.append("bt %d %d" % (tv, x))
+                ops += ["desc %d" % (base + k)] * 3
+            hs.append(_close(ops))
+        out.append(" || ".join(hs))
     return out
 
 def depth_thr_cases(ctx):
